@@ -110,10 +110,16 @@ static void g_set_ptr(struct guard* g, mptr p) {
   if (g->fake) n_raw_unpinned++; else g_protect(p);
 }
 static void g_assign_ptr(struct guard* d, mptr p) { struct guard t; t.ptr = 0; t.fake = 0; g_set_ptr(&t, p); g_move(d, &t); }   /* d = guard_ptr(p); */
-static void g_acquire(struct guard* g, mptr* cell, int order) { g_reset(g); mptr v = A_LOAD(*cell, order); g->ptr = v; g_protect(v); }
+/* sync preconditions (memory orders are data): a node linked by another thread's release CAS is reached through acquire loads; link / unlink CASes are release, the mark CAS acquire */
+#ifdef XV_INT
+#define SYNC_OBL(c) XV_OBL("hms.sync.orders", (c))
+#else
+#define SYNC_OBL(c) ((void)0)      /* checked once, in the INT runs */
+#endif
+static void g_acquire(struct guard* g, mptr* cell, int order) { g_reset(g); mptr v = A_LOAD(*cell, order); g->ptr = v; g_protect(v); SYNC_OBL(XV_IS_ACQUIRE(order)); }
 mptr* aie_cell; mptr aie_val; uint64_t aie_clock; _Bool aie_ok;       /* last acquire_if_equal (for the commit obligations) */
 static _Bool g_aie(struct guard* g, mptr* cell, mptr expected, int order) {
-  g_reset(g); mptr v = A_LOAD(*cell, order);
+  g_reset(g); mptr v = A_LOAD(*cell, order); SYNC_OBL(XV_IS_ACQUIRE(order));
   aie_cell = cell; aie_val = expected; aie_clock = xv_clock; aie_ok = (v == expected);
   if (v != expected) return 0;
   g->ptr = v; g_protect(v); return 1;
@@ -209,12 +215,13 @@ static void mon_cas(const void* addr, mptr e, mptr d, _Bool ok, int o) {
     if (owner >= NP || !g_alloc[owner] || !g_pub[owner]) { n_illegal++; return; }
   }
   size_t di = NIDX(MP_get(d)), ei = NIDX(MP_get(e));
-  if (!is_head && d == (e | 1) && MP_mark(e) == 0) { n_mark++; last_marked = owner; last_marked_key = pool[owner].key; last_marked_gen = g_gen[owner]; last_mark_was_read = (rd_has[owner] && rd_val[owner] == e); return; }               /* MARK */
+  if (!is_head && d == (e | 1) && MP_mark(e) == 0) { SYNC_OBL(XV_IS_ACQUIRE(o)); n_mark++; last_marked = owner; last_marked_key = pool[owner].key; last_marked_gen = g_gen[owner]; last_mark_was_read = (rd_has[owner] && rd_val[owner] == e); return; }               /* MARK */
   if (MP_mark(e) != 0 || MP_mark(d) != 0) { n_illegal++; return; }
   if (d != 0 && di < NP && g_alloc[di] && !g_pub[di]) {                                                       /* LINK */
     _Bool okk = pool[di].next == e && (is_head || KEY_LESS(pool[owner].key, pool[di].key)) &&
                 (e == 0 || (ei < NP && g_alloc[ei] && KEY_LESS(pool[di].key, pool[ei].key)));
     if (!okk) { n_illegal++; return; }
+    SYNC_OBL(XV_IS_RELEASE(o));
     g_pub[di] = 1; g_linked[di] = 1; n_link++; last_linked = di;
     last_link_validated = (aie_cell == (mptr*)addr && aie_val == e && aie_ok);
     /* ABA: the expected successor is still protected by a guard of this handle when the CAS is made (an unprotected node may be reclaimed and its address recycled) */
@@ -222,6 +229,7 @@ static void mon_cas(const void* addr, mptr e, mptr d, _Bool ok, int o) {
     return;
   }
   if (e != 0 && ei < NP && g_alloc[ei] && MP_mark(pool[ei].next) != 0 && d == MP_get(pool[ei].next)) {          /* UNLINK */
+    SYNC_OBL(XV_IS_RELEASE(o));
     n_unlink++; last_unlinked = ei; g_linked[ei] = 0; if (u_unlink[ei] < 3) u_unlink[ei]++;
     if (!(g_cnt[ei] > 0)) all_unlink_expected_protected = 0;       /* the node being unlinked is the expected value of the CAS: protected */
     return;
